@@ -44,6 +44,7 @@ PerChan(v) == [x \in Sides |-> [c \in Chans |-> v]]
 Init ==
     /\ s = [ ss |-> PerChan("closed"), rs |-> PerChan("closed"),
              reg |-> PerChan(FALSE),          \* channel registered on the connection
+             ord |-> [x \in Sides |-> <<>>],  \* ... in registration order (conn._channels is a dict)
              hasSess |-> PerChan(FALSE),      \* a session is attached
              reading |-> PerChan("starting"), \* _recv_paused: "starting" | "reading" | "paused"
              rbufN |-> PerChan(0),            \* chunks buffered in the channel
@@ -80,7 +81,7 @@ Op(new, l) == Step([new EXCEPT !.nops = s.nops + 1], l)
 
 Open(ch) ==
     /\ Idle /\ s.nops < MaxOps /\ s.phase[ch] = "none" /\ s.up["c"]
-    /\ Op([s EXCEPT !.phase[ch] = "opening", !.reg["c"][ch] = TRUE,
+    /\ Op([s EXCEPT !.phase[ch] = "opening", !.reg["c"][ch] = TRUE, !.ord["c"] = Append(@, ch),
                     !.openW[ch] = "pending", !.createW[ch] = "pending",
                     !.net["c"] = Out("c", <<Msg("OPEN", ch)>>)], <<"open", ch>>)
 
@@ -134,8 +135,10 @@ ConnClose(x) ==
     /\ ConnOps /\ Idle /\ s.nops < MaxOps /\ s.up[x]
     /\ LET closing == {c \in Chans : s.reg[x][c] /\ s.ss[x][c] \in {"open", "eof"}}
            cp == {c \in Chans : s.reg[x][c] /\ s.rs[x][c] = "close_pending"}
-           msgs == (IF 1 \in closing THEN <<Msg("CLOSE", 1)>> ELSE <<>>) \o
-                   (IF 2 \in closing THEN <<Msg("CLOSE", 2)>> ELSE <<>>) \o
+           \* channels are visited in the order they were registered
+           oc == SelectSeq(s.ord[x], LAMBDA c : c \in closing)
+           ocp == SelectSeq(s.ord[x], LAMBDA c : c \in cp)
+           msgs == [i \in 1..Len(oc) |-> Msg("CLOSE", oc[i])] \o
                    <<Msg("DISC", 0), Msg("LOST", 0)>>
            touched == {c \in Chans : s.reg[x][c]}
        IN Op([s EXCEPT !.net[x] = @ \o msgs,
@@ -145,8 +148,7 @@ ConnClose(x) ==
                                                        THEN "reading" ELSE @[c]],
                        !.rs[x] = [c \in Chans |-> IF c \in cp THEN "closed" ELSE @[c]],
                        !.up[x] = FALSE,
-                       !.ready = @ \o (IF 1 \in cp THEN <<<<x, "chan", 1>>>> ELSE <<>>)
-                                   \o (IF 2 \in cp THEN <<<<x, "chan", 2>>>> ELSE <<>>)
+                       !.ready = @ \o [i \in 1..Len(ocp) |-> <<x, "chan", ocp[i]>>]
                                    \o <<<<x, "conn", 0>>>>],
              <<"connclose", x>>)
 
@@ -192,7 +194,7 @@ Deliver(x) ==
              ELSE IF t = "OPEN" THEN
                   IF ch \in Reject
                   THEN [s0 EXCEPT !.net[y] = Append(@, Msg("FAIL", ch))]
-                  ELSE [s0 EXCEPT !.reg[y][ch] = TRUE,
+                  ELSE [s0 EXCEPT !.reg[y][ch] = TRUE, !.ord[y] = Append(@, ch),
                                   !.ready = Append(@, <<y, "finopen", ch>>)]
              ELSE IF t = "CONF" THEN
                   IF s.openW[ch] = "pending" /\ regd
